@@ -17,7 +17,7 @@ RULE = ("a module AST (all kinds, nesting <=3, docs with leading spaces / empty 
         "whitespace-only lines). Non-trivial: the drawn layouts show >=3 of {comment in argument list, comment glued to "
         "an argument, comment between doccomment and command, case change of a closing/other command, tab "
         "re-indentation of a doccomment, CRLF}; distinct by SHA-1 of the case")
-RULE_MORE = 'doc lines holding form feed / VT / FS / NEL / LS / PS; unquoted arguments ending in an escaped blank or tab (the layout may break the line right after them).'
+RULE_MORE = 'doc lines holding form feed / VT / FS / NEL / LS / PS; unquoted arguments ending in an escaped blank or tab (the layout may break the line right after them). Later: interior tabs; lines ending in ] [ #; text on the opener line; completely empty lines inside indented blocks; commented-out definitions between doccomment and command.'
 ASSUMPTIONS = ["layout rules of vlib/render.py keep the token sequence (same AST, same argument strings) and are accepted "
                "by CMake (re-checked mechanically by C05's cmake differential)"]
 BUDGET = {"quick": {"shards": 4, "examples": 250}, "thorough": {"shards": 16, "examples": 3000}}
